@@ -34,7 +34,9 @@ func (c *Int) SetStepValue(value int) {
 
 // GetValue returns the value as int
 func (c *Int) GetValue() int {
-	return c.Characteristic.GetValue().(int)
+	// nil (write-only, or no value set yet) reads as the zero value
+	v, _ := c.Characteristic.GetValue().(int)
+	return v
 }
 
 func (c *Int) GetMinValue() int {
